@@ -23,15 +23,15 @@ Open Scope N_scope.
 
 (* ------------------------------------------------------------------ expected source texts *)
 (* _r_comment  /\*.*?\*/|//([^\n\\]|\\.)*?$ *)
-Definition expr_comment_src : text := [47;92;42;46;42;63;92;42;47;124;47;47;40;91;94;92;110;92;92;93;124;92;92;46;41;42;63;36].
+Definition exp_r_comment_src : text := [47;92;42;46;42;63;92;42;47;124;47;47;40;91;94;92;110;92;92;93;124;92;92;46;41;42;63;36].
 (* _r_define  ^\s*#(?:\s|\\\n)*define(?:\s|\\\n)+([A-Za-z_][A-Za-z_0-9]* )\b((?:[^\n\\]|\\.)*?)$ *)
-Definition expr_define_src : text := [94;92;115;42;35;40;63;58;92;115;124;92;92;92;110;41;42;100;101;102;105;110;101;40;63;58;92;115;124;92;92;92;110;41;43;40;91;65;45;90;97;45;122;95;93;91;65;45;90;97;45;122;95;48;45;57;93;42;41;92;98;40;40;63;58;91;94;92;110;92;92;93;124;92;92;46;41;42;63;41;36].
+Definition exp_r_define_src : text := [94;92;115;42;35;40;63;58;92;115;124;92;92;92;110;41;42;100;101;102;105;110;101;40;63;58;92;115;124;92;92;92;110;41;43;40;91;65;45;90;97;45;122;95;93;91;65;45;90;97;45;122;95;48;45;57;93;42;41;92;98;40;40;63;58;91;94;92;110;92;92;93;124;92;92;46;41;42;63;41;36].
 (* _r_line_directive  ^[ \t]*#[ \t]*(?:line|\d+)\b.*$ *)
-Definition expr_line_directive_src : text := [94;91;32;92;116;93;42;35;91;32;92;116;93;42;40;63;58;108;105;110;101;124;92;100;43;41;92;98;46;42;36].
+Definition exp_r_line_directive_src : text := [94;91;32;92;116;93;42;35;91;32;92;116;93;42;40;63;58;108;105;110;101;124;92;100;43;41;92;98;46;42;36].
 (* _r_words  \w+|\S *)
-Definition expr_words_src : text := [92;119;43;124;92;83].
+Definition exp_r_words_src : text := [92;119;43;124;92;83].
 (* _r_other_whitespace  [\r\f\v] *)
-Definition expr_other_whitespace_src : text := [91;92;114;92;102;92;118;93].
+Definition exp_r_other_whitespace_src : text := [91;92;114;92;102;92;118;93].
 (* csource = _r_other_whitespace.sub(' ', csource) *)
 Definition pre_1 : text := [99;115;111;117;114;99;101;32;61;32;95;114;95;111;116;104;101;114;95;119;104;105;116;101;115;112;97;99;101;46;115;117;98;40;39;32;39;44;32;99;115;111;117;114;99;101;41].
 (* csource, line_directives = _remove_line_directives(csource) *)
@@ -120,3 +120,178 @@ Definition pf_3 : text := [116;121;112;101;110;97;109;101;115;32;61;32;91;93].
 Definition pf_4 : text := [102;111;114;32;110;97;109;101;32;105;110;32;115;111;114;116;101;100;40;115;101;108;102;46;95;100;101;99;108;97;114;97;116;105;111;110;115;41;58;10;32;32;32;32;105;102;32;110;97;109;101;46;115;116;97;114;116;115;119;105;116;104;40;39;116;121;112;101;100;101;102;32;39;41;58;10;32;32;32;32;32;32;32;32;110;97;109;101;32;61;32;110;97;109;101;91;56;58;93;10;32;32;32;32;32;32;32;32;116;121;112;101;110;97;109;101;115;46;97;112;112;101;110;100;40;110;97;109;101;41;10;32;32;32;32;32;32;32;32;99;116;110;46;100;105;115;99;97;114;100;40;110;97;109;101;41].
 (* typenames += sorted(ctn) *)
 Definition pf_5 : text := [116;121;112;101;110;97;109;101;115;32;43;61;32;115;111;114;116;101;100;40;99;116;110;41].
+
+Definition exp_flags : list N := [24; 24; 8; 0; 0].     (* DOTALL|MULTILINE, DOTALL|MULTILINE, MULTILINE, 0, 0 *)
+Definition exp_remove_line_directives : list text := [rld_1; rld_2; rld_3; rld_4].
+Definition exp_put_back_line_directives : list text := [pbl_1; pbl_2].
+Definition exp_common_type_names : list text :=
+  [ctn_1; ctn_2; ctn_3; ctn_4; ctn_5; ctn_6; ctn_7; ctn_8; ctn_9; ctn_10; ctn_11; ctn_12].
+
+(* ------------------------------------------------------------------ _preprocess as a list of stages *)
+
+Inductive stage :=
+| S_other_ws          (* csource = _r_other_whitespace.sub(' ', csource)                      normalize_ws *)
+| S_remove_dirs       (* csource, line_directives = _remove_line_directives(csource)          remove_line_directives *)
+| S_def_replace       (* def replace_keeping_newlines(m): return ' ' + count('\n') * '\n'     (used by S_comment) *)
+| S_comment           (* csource = _r_comment.sub(replace_keeping_newlines, csource)          sc *)
+| S_macros_init       (* macros = {} *)
+| S_define_loop       (* for match in _r_define.finditer(csource): macros[name] = value...    snd (defs ..) *)
+| S_define_sub        (* csource = _r_define.sub('', csource)                                 fst (defs ..) *)
+| S_later             (* the rewriting steps the model does not contain ('...', __stdcall/WINAPI/__cdecl, extern "Python",
+                         string-literal warning, old-pycparser workaround): identity on the model's domain (Model.v header) *)
+| S_put_back          (* csource = _put_back_line_directives(csource, line_directives)        put_back_line_directives *)
+| S_return            (* return (csource, macros) *)
+| S_unknown.          (* a statement the model does not know *)
+
+Definition known_preprocess : list (text * stage) :=
+  [(pre_1, S_other_ws); (pre_2, S_remove_dirs); (pre_3, S_def_replace); (pre_4, S_comment); (pre_5, S_macros_init);
+   (pre_6, S_define_loop); (pre_7, S_define_sub); (pre_8, S_later); (pre_9, S_later); (pre_10, S_later);
+   (pre_11, S_later); (pre_12, S_later); (pre_13, S_later); (pre_14, S_later); (pre_15, S_later); (pre_16, S_later);
+   (pre_17, S_later); (pre_18, S_later); (pre_19, S_later); (pre_20, S_put_back); (pre_21, S_return)].
+
+Fixpoint lookup {A : Type} (dflt : A) (tbl : list (text * A)) (t : text) : A :=
+  match tbl with
+  | [] => dflt
+  | (k, v) :: tbl' => if list_eqb_N t k then v else lookup dflt tbl' t
+  end.
+Definition stage_of : text -> stage := lookup S_unknown known_preprocess.
+
+(* state: csource, line_directives, macros, "replace_keeping_newlines is defined", "macros is defined".
+   None = the interpreter is stuck (unknown statement, a name used before it is bound, no return). *)
+Fixpoint run_pre (l : list stage) (cs : text) (dirs : option (list text)) (ms : option macros) (repl : bool)
+  : option (result (text * macros)) :=
+  match l with
+  | [] => None
+  | s :: l' =>
+      match s with
+      | S_other_ws => run_pre l' (normalize_ws cs) dirs ms repl
+      | S_remove_dirs => let (c, d) := remove_line_directives cs in run_pre l' c (Some d) ms repl
+      | S_def_replace => run_pre l' cs dirs ms true
+      | S_comment => if repl then run_pre l' (sc cs) dirs ms repl else None
+      | S_macros_init => run_pre l' cs dirs (Some []) repl
+      | S_define_loop =>
+          match ms with
+          | Some m => run_pre l' cs dirs (Some (snd (defs (S (length cs)) true cs m))) repl
+          | None => None
+          end
+      | S_define_sub => run_pre l' (fst (defs (S (length cs)) true cs [])) dirs ms repl
+      | S_later => run_pre l' cs dirs ms repl
+      | S_put_back =>
+          match dirs with
+          | Some d => match put_back_line_directives cs d with
+                      | Ok c => run_pre l' c dirs ms repl
+                      | Err e => Some (Err e)
+                      end
+          | None => None
+          end
+      | S_return => match ms with Some m => Some (Ok (cs, m)) | None => None end
+      | S_unknown => None
+      end
+  end.
+
+Definition run_preprocess (stmts : list text) (s : text) : option (result (text * macros)) :=
+  run_pre (map stage_of stmts) s None None false.
+
+(* ------------------------------------------------------------------ _common_type_names (cparser.py:268-305) *)
+
+Definition w_semi : text := [59].
+Definition w_comma : text := [44].
+Definition w_lpar : text := [40].
+Definition w_rpar : text := [41].
+Definition w_typedef : text := [116;121;112;101;100;101;102].
+
+Definition mem (w : text) (l : list text) : bool := existsb (list_eqb_N w) l.
+Definition discard (w : text) (l : list text) : list text := filter (fun x => negb (list_eqb_N w x)) l.   (* set.discard *)
+Definition add (w : text) (l : list text) : list text := if mem w l then l else w :: l.                    (* set.add *)
+
+Record ctn_state := mk_ctn {
+  look : list text;        (* look_for_words *)
+  used : list text;        (* words_used *)
+  is_typedef : bool;
+  paren : Z;
+  prev : text }.           (* previous_word *)
+
+(* look_for_words = set(COMMON_TYPES) + ';' ',' '(' ')' 'typedef' *)
+Definition ctn_init (common : list text) : ctn_state :=
+  mk_ctn (common ++ [w_semi; w_comma; w_lpar; w_rpar; w_typedef]) [] false 0%Z [].
+
+(* the loop body: note that `discard(previous_word)` may also remove ';' ',' '(' ')' or 'typedef' from look_for_words *)
+Definition ctn_step (s : ctn_state) (w : text) : ctn_state :=
+  let s' :=
+    if mem w (look s) then
+      if list_eqb_N w w_semi then
+        if is_typedef s then mk_ctn (discard (prev s) (look s)) (discard (prev s) (used s)) false (paren s) (prev s)
+        else s
+      else if list_eqb_N w w_typedef then mk_ctn (look s) (used s) true 0%Z (prev s)
+      else if list_eqb_N w w_lpar then mk_ctn (look s) (used s) (is_typedef s) (paren s + 1)%Z (prev s)
+      else if list_eqb_N w w_rpar then mk_ctn (look s) (used s) (is_typedef s) (paren s - 1)%Z (prev s)
+      else if list_eqb_N w w_comma then
+        if is_typedef s && (paren s =? 0)%Z
+        then mk_ctn (discard (prev s) (look s)) (discard (prev s) (used s)) (is_typedef s) (paren s) (prev s)
+        else s
+      else mk_ctn (look s) (add w (used s)) (is_typedef s) (paren s) (prev s)
+    else s in
+  mk_ctn (look s') (used s') (is_typedef s') (paren s') w.
+
+Definition ctn_of_words (common : list text) (ws : list text) : list text :=
+  let s := fold_left ctn_step ws (ctn_init common) in
+  filter (fun n => mem n (used s)) common.           (* the set words_used, listed in the order of `common` *)
+
+(* _common_type_names(csource): only the \w+|\S words of its argument matter *)
+Definition common_type_names (common : list text) (t : text) : list text := ctn_of_words common (words t).
+
+(* ------------------------------------------------------------------ front part of Parser._parse (cparser.py:320-333) *)
+
+Inductive pstage :=
+| P_preprocess        (* csource, macros = _preprocess(csource) *)
+| P_ctn               (* ctn = _common_type_names(csource) *)
+| P_typenames_init    (* typenames = [] *)
+| P_typenames_loop    (* for name in sorted(self._declarations): typedefs declared by earlier cdefs: append, ctn.discard *)
+| P_typenames_add     (* typenames += sorted(ctn) *)
+| P_unknown.
+
+Definition known_parse : list (text * pstage) :=
+  [(pf_1, P_preprocess); (pf_2, P_ctn); (pf_3, P_typenames_init); (pf_4, P_typenames_loop); (pf_5, P_typenames_add)].
+Definition pstage_of : text -> pstage := lookup P_unknown known_parse.
+
+(* `common`: the keys of COMMON_TYPES, sorted; `declared`: the typedef names of earlier cdef() calls, sorted.
+   Result: the names pre-declared with `typedef int NAME;`, the text handed to pycparser, the macros. *)
+Fixpoint run_parse (common declared : list text) (l : list pstage) (cs : text) (ms : option macros)
+                   (ctn tn : option (list text)) : option (result (list text * text * macros)) :=
+  match l with
+  | [] => match ms, tn with Some m, Some t => Some (Ok (t, cs, m)) | _, _ => None end
+  | p :: l' =>
+      match p with
+      | P_preprocess => match preprocess cs with
+                        | Ok (t, m) => run_parse common declared l' t (Some m) ctn tn
+                        | Err e => Some (Err e)
+                        end
+      | P_ctn => run_parse common declared l' cs ms (Some (common_type_names common cs)) tn
+      | P_typenames_init => run_parse common declared l' cs ms ctn (Some [])
+      | P_typenames_loop =>
+          match ctn, tn with
+          | Some c, Some t => run_parse common declared l' cs ms
+                                (Some (filter (fun n => negb (mem n declared)) c)) (Some (t ++ declared))
+          | _, _ => None
+          end
+      | P_typenames_add =>
+          match ctn, tn with
+          | Some c, Some t => run_parse common declared l' cs ms ctn (Some (t ++ c))
+          | _, _ => None
+          end
+      | P_unknown => None
+      end
+  end.
+
+Definition run_parse_front (common declared : list text) (stmts : list text) (raw : text) :=
+  run_parse common declared (map pstage_of stmts) raw None None None.
+
+(* what the model says Parser._parse computes before it calls pycparser *)
+Definition parse_front (common declared : list text) (raw : text) : result (list text * text * macros) :=
+  match preprocess raw with
+  | Ok (t, m) => Ok (declared ++ filter (fun n => negb (mem n declared)) (common_type_names common t), t, m)
+  | Err e => Err e
+  end.
+
+(* for the correspondence: kind 3 = _common_type_names; the list `common` comes with the case *)
+Definition ctn_eval (common : list text) (t : text) : list text := common_type_names common t.
